@@ -169,6 +169,11 @@ impl SwiftField for Field61 {
 
         if customer_ref_part.len() <= 16 {
             customer_reference = customer_ref_part;
+        } else if after_customer_ref.is_some() {
+            // 16x[//16x]: nothing may stand between the 16th character and the "//"
+            return Err(ParseError::InvalidFormat {
+                message: "Field 61 customer reference exceeds 16 characters".to_string(),
+            });
         } else {
             customer_reference = customer_ref_part[..16].to_string();
             // If customer ref part is > 16 chars and no //, rest is supplementary details
